@@ -124,7 +124,24 @@ BoolOf(s) == s \in {LTrue, <<"1">>}
 ---------------------------------------------------------------------------
 (* The type hierarchy (XSD part 2 section 3, built-in derivation; part 1 3.4.2 for sc/grp) *)
 AtomicBuiltins == {"short", "int", "long", "integer", "decimal", "string", "date", "boolean",
-                   "unsignedLong", "nonNegativeInteger", "gYearMonth", "gYear", "qname"}
+                   "unsignedLong", "nonNegativeInteger", "gYearMonth", "gYear", "qname",
+                   "dateTime", "dateTimeStamp"}
+(* EXTENSION (round 6).  Two families the XSD VERSION of the schema and the LENGTH of a derivation chain  *)
+(* are dimensions of:                                                                                   *)
+(*   c1 .. cMaxChain : c1 = restriction(xs:short), ck = restriction(c(k-1)): a chain of k restriction   *)
+(*            steps above a NON-primitive built-in; the datatype class stays xs:short however long the   *)
+(*            chain is (XSD part 2, 4.1.1: the value space of a restriction is a subset of its base's)   *)
+(*   dateTimeStamp : built-in of XSD 1.1 ONLY (part 2 1.1, 3.4.28), derived from xs:dateTime;            *)
+(*   recent  = restriction(xs:dateTimeStamp): a user type over a 1.1-only base.  A schema that uses them *)
+(*            exists under XSD 1.1 only: Versions(S); the queries of a version: XQ(S, ver)               *)
+MaxChain   == 6
+ChainNames == <<"c1", "c2", "c3", "c4", "c5", "c6">>
+ChainTypes == {ChainNames[k] : k \in 1..MaxChain}
+ChainDepth(T) == CHOOSE k \in 1..MaxChain : ChainNames[k] = T
+Xsd11Only  == {"dateTimeStamp"}
+ExtUser    == ChainTypes \cup {"recent"}
+ExtTypes   == ExtUser \cup {"dateTime", "dateTimeStamp"}
+DTTypes    == {"dateTime", "dateTimeStamp", "recent"}
 VersionedTags  == {"date", "gYearMonth", "gYear"}      \* one datatype class per XSD version (binding table)
 (* proleptic (astronomical) year of a lexical year under the two versions of XSD part 2 (3.2.7 / D.3.2) *)
 AstroYear(ver, ly) == IF ver = "1.0" /\ ly < 0 THEN ly + 1 ELSE ly
@@ -133,7 +150,7 @@ Anon(T)        == CASE T = "int" -> "~int" [] T = "integer" -> "~integer" [] T =
 AnonTypes      == {Anon(T) : T \in AnonBases}
 AnonBase(A)    == CHOOSE T \in AnonBases : Anon(T) = A
 BigTypes       == {"long", "unsignedLong", "bint", "bdec"}
-SimpleTypes    == AtomicBuiltins \cup {"small", "ilist", "u", "ud", "bint", "bdec"}
+SimpleTypes    == AtomicBuiltins \cup {"small", "ilist", "u", "ud", "bint", "bdec"} \cup ExtUser
 AllTypes       == SimpleTypes \cup AnonTypes
                   \cup {"sc", "grp", "root", "anyAtomicType", "anySimpleType", "anyType", "v"}
 VBases         == {"int", "integer", "decimal", "string"}       \* what v may restrict
@@ -147,7 +164,10 @@ BaseOf(T) == CASE T = "short"   -> "int"
                [] T = "bint"    -> "integer"      \* bint IS xs:integer (an alias whose values are digit sequences)
                [] T = "bdec"    -> "decimal"      \* bdec IS xs:decimal
                [] T \in AnonTypes -> AnonBase(T)  \* anonymous restriction
-               [] T \in {"decimal", "string", "date", "boolean", "gYearMonth", "gYear", "qname"} -> "anyAtomicType"
+               [] T \in ChainTypes -> IF ChainDepth(T) = 1 THEN "short" ELSE ChainNames[ChainDepth(T) - 1]
+               [] T = "recent"  -> "dateTimeStamp"
+               [] T = "dateTimeStamp" -> "dateTime"
+               [] T \in {"decimal", "string", "date", "boolean", "gYearMonth", "gYear", "qname", "dateTime"} -> "anyAtomicType"
                [] T = "anyAtomicType" -> "anySimpleType"
                [] T \in {"ilist", "u", "ud"} -> "anySimpleType"
                [] T = "anySimpleType" -> "anyType"
@@ -168,7 +188,7 @@ HasSimpleValue(T) == T \in SimpleTypes \cup AnonTypes \cup {"sc", "v"}      \* s
 ContentType(T)    == IF T = "sc" THEN "decimal" ELSE IF T \in AnonTypes THEN AnonBase(T) ELSE T
 (* the datatype class of a value of type T: the nearest built-in atomic type *)
 AtomClass(T) == CASE T = "small" -> "int" [] T = "bint" -> "bigInteger" [] T = "bdec" -> "bigDecimal"
-                  [] T = "qname" -> "QName" [] OTHER -> T
+                  [] T = "qname" -> "QName" [] T \in ChainTypes -> "short" [] T = "recent" -> "dateTimeStamp" [] OTHER -> T
 
 (* numbers that do not fit 32 bits (nor a double): non-negative, [ip, fp] digit sequences, *)
 (* ip without leading zeros, fp without trailing zeros                                      *)
@@ -195,10 +215,18 @@ CmpOps == {"eq", "ne", "lt", "le", "gt", "ge"}
 OpHolds(op, c) == CASE op = "eq" -> c = 0 [] op = "ne" -> c # 0 [] op = "lt" -> c < 0
                     [] op = "le" -> c <= 0 [] op = "gt" -> c > 0 [] op = "ge" -> c >= 0
 
+(* xs:dateTime lexicals of the universe: YYYY-MM-DDThh:mm:ss with an optional Z *)
+IsDTLex(s) == /\ Len(s) \in {19, 20} /\ IsDateLex(SubSeq(s, 1, 10)) /\ s[11] = "T" /\ s[14] = ":" /\ s[17] = ":"
+              /\ \A i \in {12, 13, 15, 16, 18, 19} : IsDigit(s[i])
+              /\ NatOf(SubSeq(s, 12, 13)) < 24 /\ NatOf(SubSeq(s, 15, 16)) < 60 /\ NatOf(SubSeq(s, 18, 19)) < 60
+              /\ Len(s) = 20 => s[20] = "Z"
 ValidLex(T, s) ==
   LET c == Collapse(s) IN
   CASE T \in {"int", "integer"} -> IsIntLex(c)
     [] T = "small"   -> IsIntLex(c) /\ IntOf(c) <= 10
+    [] T \in ChainTypes -> IsIntLex(c) /\ IntOf(c) \in (0 - 32768)..32767
+    [] T = "dateTime" -> IsDTLex(c)
+    [] T \in {"dateTimeStamp", "recent"} -> IsDTLex(c) /\ Len(c) = 20          \* the time zone is REQUIRED
     [] T \in {"decimal", "sc"} -> IsDecLex(c)
     [] T = "string"  -> TRUE
     [] T = "date"    -> IsDateLex(c)
@@ -229,7 +257,10 @@ VUntyped(s)  == [t |-> "untypedAtomic", s |-> s]
 (* XDM typed value = SEQUENCE of atomic values (XSD part 2 lexical mappings) *)
 TypedValue(T, s) ==
   LET c == Collapse(s) IN
-  CASE T \in {"int", "integer", "small"} -> <<VInt(AtomClass(T), IntOf(c))>>
+  CASE T \in {"int", "integer", "small"} \cup ChainTypes -> <<VInt(AtomClass(T), IntOf(c))>>
+    [] T \in DTTypes -> <<[t |-> AtomClass(T), y |-> NatOf(SubSeq(c, 1, 4)), m |-> NatOf(SubSeq(c, 6, 7)), d |-> NatOf(SubSeq(c, 9, 10)),
+                           h |-> NatOf(SubSeq(c, 12, 13)), mi |-> NatOf(SubSeq(c, 15, 16)), sec |-> NatOf(SubSeq(c, 18, 19)),
+                           z |-> (Len(c) = 20)]>>
     [] T \in {"decimal", "sc"} -> <<VDec(DecOf(c))>>
     [] T = "string"  -> <<VStr(s)>>                       \* whiteSpace = preserve
     [] T = "date"    -> <<VDate(DateOf(c))>>
@@ -271,11 +302,18 @@ B30   == <<"1","2","3","4","5","6","7","8","9","0","1","2","3","4","5","6","7","
 BigLits == {B53, B53p1, B53p2, D53h, B30}          \* literals the probes compare with
 Lym1 == <<"1","9","9","9","-","0","9">>     Lym2 == <<"-","0","0","0","1","-","0","5">>
 Lgy1 == <<"1","9","9","9">>                 Lgy2 == <<"-","0","0","0","1">>
+L104 == <<"1","0","4">>
+Ldt1 == Ld1 \o <<"T","1","0",":","1","0",":","1","0","Z">>
+Ldt2 == Ld2 \o <<"T","2","3",":","5","9",":","0","0">>
+Ldt3 == Ld2 \o <<"T","0","0",":","0","0",":","0","1","Z">>
 Lqn1 == <<"x">>                             Lqn2 == <<"t",":","x">>
 
 LexSeq(T) == CASE T = "int"     -> <<L7, Lsp7, Lm3, L12>>
                [] T = "integer" -> <<Lm3, L7>>
                [] T = "small"   -> <<L7, Lm3>>
+               [] T \in ChainTypes -> <<L104, Lm3>>
+               [] T = "dateTime" -> <<Ldt2, Ldt1>>
+               [] T \in {"dateTimeStamp", "recent"} -> <<Ldt1, Ldt3>>
                [] T = "decimal" -> <<Ldec, L7>>
                [] T = "sc"      -> <<Ldec, L7>>
                [] T = "string"  -> <<Lx, <<>>, Lsp7>>
@@ -293,13 +331,15 @@ LexSeq(T) == CASE T = "int"     -> <<L7, Lsp7, Lm3, L12>>
                [] T = "bdec"    -> <<D53h, B53p1>>
                [] T = "grp"     -> << <<>> >>
 Lex(T) == {LexSeq(T)[i] : i \in 1..(IF LexCap < Len(LexSeq(T)) THEN LexCap ELSE Len(LexSeq(T)))}
-SecondLex(T) == CASE T \in {"int", "integer", "small", "decimal", "sc", "u", "ud", "ilist"} -> L7
+SecondLex(T) == CASE T \in {"int", "integer", "small", "decimal", "sc", "u", "ud", "ilist"} \cup ChainTypes -> L7
+                  [] T \in DTTypes -> Ldt3
                   [] T = "string" -> Lx  [] T = "date" -> Ld1  [] T = "boolean" -> LTrue
                   [] T \in BigTypes -> B53p1
                   [] T = "gYearMonth" -> Lym1 [] T = "gYear" -> Lgy1 [] T = "qname" -> Lqn1
                   [] T = "grp" -> <<>>
 (* default value of the declaration at position pos (kid3 differs from kid1 on purpose) *)
-DefaultLex(T, pos) == CASE T \in {"int", "integer", "small", "decimal", "sc", "u", "ud", "string"} -> IF pos = 3 THEN L5 ELSE L3
+DefaultLex(T, pos) == CASE T \in {"int", "integer", "small", "decimal", "sc", "u", "ud", "string"} \cup ChainTypes -> IF pos = 3 THEN L5 ELSE L3
+                        [] T \in DTTypes -> Ldt1
                         [] T = "date"    -> IF pos = 3 THEN Ld1 ELSE Ld2
                         [] T = "boolean" -> IF pos = 3 THEN LFalse ELSE LTrue
                         [] T = "ilist"   -> IF pos = 3 THEN Llist2 ELSE Llist
@@ -475,6 +515,18 @@ UntypedAnnot(S, inst) == LET f == Flatten(S, inst) IN [n \in 1..Len(f) |-> Untyp
 QueryTypes == {"short", "int", "long", "integer", "decimal", "string", "date", "boolean",
                "unsignedLong", "nonNegativeInteger", "gYearMonth", "gYear", "qname",
                "small", "ilist", "u", "ud", "v", "sc", "grp", "anyAtomicType", "anySimpleType", "anyType"}
+(* the extension: which types a schema uses, the XSD versions it exists in, the extra queries of a version *)
+UsedTypes(S) == {S.kids[i].ty : i \in 1..Len(S.kids)} \cup {d.ty : d \in S.atts}
+UsedChain(S) == UNION {ChainS(S, T) : T \in UsedTypes(S)}
+UsesExt(S)   == UsedChain(S) \cap ExtUser # {} \/ UsedTypes(S) \cap ExtTypes # {}
+Versions(S)  == IF UsedChain(S) \cap Xsd11Only # {} THEN {"1.1"} ELSE {"1.0", "1.1"}
+InVersion(T, ver) == ver = "1.1" \/ Chain(T) \cap Xsd11Only = {}
+(* the user types of the extension a schema DEFINES (all that its versions allow): only defined types are asked *)
+DefinedExt(S) == IF ~UsesExt(S) THEN {} ELSE IF Versions(S) = {"1.1"} THEN ExtUser ELSE ChainTypes
+XQ(S, ver)   == IF UsesExt(S) THEN {Q \in DefinedExt(S) \cup {"dateTime", "dateTimeStamp"} : InVersion(Q, ver)} ELSE {}
+(* `data(.) instance of xs:Q` for an atomic value: Q is the type of the value or one of its bases (XPath 2.5.5.2) *)
+AtomInstanceOf(v, Q) == v.t \in AtomicBuiltins /\ Q \in Chain(v.t)
+AtomQueries(ver) == {Q \in AtomicBuiltins \ {"qname"} : InVersion(Q, ver)}
 InstanceOf(S, a, Q, optional) == a.ty \in AllTypes /\ Q \in ChainS(S, a.ty) /\ (a.nilled => optional)
 
 ---------------------------------------------------------------------------
@@ -484,7 +536,8 @@ InstanceOf(S, a, Q, optional) == a.ty \in AllTypes /\ Q \in ChainS(S, a.ty) /\ (
 (* business of other properties (C07): not a vector.                                       *)
 RVal(v) == [k |-> "val", v |-> v]
 RK(k)   == [k |-> k]
-IsNum(v) == v.t \in {"int", "integer", "decimal"}
+IntTags  == {"short", "int", "integer"}
+IsNum(v) == v.t \in IntTags \cup {"decimal"}
 
 RECURSIVE Pow10(_)
 Pow10(n) == IF n = 0 THEN 1 ELSE 10 * Pow10(n - 1)
@@ -495,7 +548,7 @@ Plus1(tv) ==
   ELSE IF tv = <<>> THEN RK("empty")
   ELSE IF Len(tv) > 1 THEN RK("err")
   ELSE LET v == tv[1] IN
-       CASE v.t \in {"int", "integer"} -> RVal(VInt("integer", v.i + 1))
+       CASE v.t \in IntTags -> RVal(VInt("integer", v.i + 1))
          [] v.t = "decimal" -> RVal(VDec(NormDec(v.u + Pow10(v.sc), v.sc)))
          [] v.t = "string"  -> RK("err")                     \* XPTY0004: typed, NOT cast like untyped
          [] OTHER -> RK("na")
@@ -507,7 +560,7 @@ IDiv2(tv) ==
   ELSE IF tv = <<>> THEN RK("empty")
   ELSE IF Len(tv) > 1 THEN RK("err")
   ELSE LET v == tv[1] IN
-       CASE v.t \in {"int", "integer"} -> RVal(VInt("integer", TruncDiv(v.i, 2)))
+       CASE v.t \in IntTags -> RVal(VInt("integer", TruncDiv(v.i, 2)))
          [] v.t = "decimal" -> RVal(VInt("integer", TruncDiv(v.u, 2 * Pow10(v.sc))))
          [] v.t = "string"  -> RK("err")
          [] OTHER -> RK("na")
@@ -524,7 +577,7 @@ SumScaled(vs, sc) == IF vs = <<>> THEN 0
                      ELSE (IF Head(vs).t = "decimal" THEN Head(vs).u * Pow10(sc - Head(vs).sc) ELSE Head(vs).i * Pow10(sc))
                           + SumScaled(Tail(vs), sc)
 SumProbe(vs) ==    \* vs: the single typed values of the kids named a, in document order
-  IF vs = <<>> \/ \E i \in 1..Len(vs) : vs[i].t \notin {"int", "integer", "decimal"} THEN RK("na")
+  IF vs = <<>> \/ \E i \in 1..Len(vs) : ~IsNum(vs[i]) THEN RK("na")
   ELSE IF \A i \in 1..Len(vs) : vs[i].t # "decimal" THEN RVal(VInt("integer", SumInt(vs)))
   ELSE RVal(VDec(NormDec(SumScaled(vs, MaxSc(vs)), MaxSc(vs))))
 (* `. eq xs:T("<its own text>")`: a typed value equals the value its constructor makes of the same text *)
@@ -546,7 +599,8 @@ LtDate(tv) ==
   IF tv = NoValue THEN RK("na")
   ELSE IF tv = <<>> THEN RK("empty")
   ELSE IF Len(tv) > 1 THEN RK("err")
-  ELSE IF tv[1].t = "date" THEN RVal(VBool(DateLt(tv[1]))) ELSE RK("err")
+  ELSE IF tv[1].t = "date" THEN RVal(VBool(DateLt(tv[1])))
+  ELSE IF tv[1].t \in {"dateTime", "dateTimeStamp"} THEN RK("na") ELSE RK("err")
 
 ---------------------------------------------------------------------------
 (* What the annotations do NOT depend on (the binding enumerates these renderings of ONE instance): *)
@@ -573,6 +627,7 @@ LawNsPlaces == \A p \in NsPlaces : InScopeAtElement(p) = "urn:t"
 SchemaDefaults(S) ==
   [kids |-> [p \in 1..Len(S.kids) |-> IF S.kids[p].dv THEN DefaultLex(S.kids[p].ty, p) ELSE NoLex],
    atts |-> {<<d.nm, IF d.use = "dflt" THEN DefaultLex(d.ty, 1) ELSE NoLex>> : d \in S.atts},
+   xdefs |-> {<<T, BaseOf(T)>> : T \in DefinedExt(S)},       \* user types of the extension the schema needs
    vbase |-> VBase(S),                                                  \* base type of the global type v
    sgm  |-> [p \in 1..Len(S.kids) |-> IF S.kids[p].sg THEN SgMember(S.kids[p].ty) ELSE "none"]]
 
@@ -586,8 +641,15 @@ Vec(S, inst) ==
       sdef    |-> SchemaDefaults(S),
       typed   |-> A,
       untyped |-> UntypedAnnot(S, inst),
-      iof     |-> [n \in 1..Len(f) |-> IF judged(n) THEN {Q \in QueryTypes : InstanceOf(S, A[n], Q, FALSE)} ELSE {}],
-      iofopt  |-> [n \in 1..Len(f) |-> IF judged(n) THEN {Q \in QueryTypes : InstanceOf(S, A[n], Q, TRUE)} ELSE {}],
+      iof     |-> [n \in 1..Len(f) |-> IF judged(n) THEN {Q \in QueryTypes \cup XQ(S, "1.1") : InstanceOf(S, A[n], Q, FALSE)} ELSE {}],
+      iofopt  |-> [n \in 1..Len(f) |-> IF judged(n) THEN {Q \in QueryTypes \cup XQ(S, "1.1") : InstanceOf(S, A[n], Q, TRUE)} ELSE {}],
+      versions |-> Versions(S),
+      xq10    |-> XQ(S, "1.0"),
+      xq11    |-> XQ(S, "1.1"),
+      aq10    |-> IF UsesExt(S) THEN AtomQueries("1.0") ELSE {},
+      aq11    |-> IF UsesExt(S) THEN AtomQueries("1.1") ELSE {},
+      atomiof |-> [n \in 1..Len(f) |-> IF judged(n) /\ UsesExt(S) /\ A[n].tv # NoValue /\ Len(A[n].tv) = 1
+                                        THEN {Q \in AtomQueries("1.1") : AtomInstanceOf(A[n].tv[1], Q)} ELSE {}],
       plus1   |-> [n \in 1..Len(f) |-> IF judged(n) THEN Plus1(A[n].tv) ELSE RK("na")],
       idiv2   |-> [n \in 1..Len(f) |-> IF judged(n) THEN IDiv2(A[n].tv) ELSE RK("na")],
       eq7     |-> [n \in 1..Len(f) |-> IF judged(n) THEN Eq7(A[n].tv) ELSE RK("na")],
@@ -639,7 +701,19 @@ LawAstro == \A ly \in {0 - 2, 0 - 1, 1, 1999} :
                /\ AstroYear("1.1", ly) = ly
                /\ ly < 0 => AstroYear("1.0", ly) = AstroYear("1.1", ly) + 1      \* one year apart before the common era
                /\ ly > 0 => AstroYear("1.0", ly) = AstroYear("1.1", ly)
-StaticLaws == LawLexValid /\ LawChain /\ LawCollapse /\ LawRestriction /\ LawBig /\ LawIDiv /\ LawNsPlaces /\ LawAstro
+(* a restriction chain keeps the datatype class and every base on the way, whatever its length; a 1.1-only  *)
+(* base makes every type derived from it 1.1-only                                                          *)
+LawExt == /\ \A k \in 1..MaxChain : LET T == ChainNames[k] IN
+                /\ AtomClass(T) = "short" /\ {"short", "int", "long", "integer", "decimal"} \subseteq Chain(T)
+                /\ {ChainNames[j] : j \in 1..k} \subseteq Chain(T) /\ Cardinality(Chain(T) \cap ChainTypes) = k
+                /\ \A l \in AllLex(T) : TypedValue(T, l) = <<VInt("short", IntOf(Collapse(l)))>> /\ ValidLex("int", l)
+                /\ InVersion(T, "1.0")
+          /\ ~InVersion("recent", "1.0") /\ ~InVersion("dateTimeStamp", "1.0") /\ InVersion("dateTime", "1.0")
+          /\ {"dateTimeStamp", "dateTime", "anyAtomicType"} \subseteq Chain("recent")
+          /\ \A l \in AllLex("recent") : ValidLex("dateTimeStamp", l) /\ ValidLex("dateTime", l)
+                                          /\ TypedValue("recent", l) = TypedValue("dateTimeStamp", l)
+          /\ \A l \in AllLex("dateTime") : TypedValue("dateTime", l)[1].z = ValidLex("dateTimeStamp", l)
+StaticLaws == LawExt /\ LawLexValid /\ LawChain /\ LawCollapse /\ LawRestriction /\ LawBig /\ LawIDiv /\ LawNsPlaces /\ LawAstro
 
 PairLaws(S, inst) ==
   LET f == Flatten(S, inst)
